@@ -1,5 +1,6 @@
 pub mod compile;
 pub mod drawhist;
+pub mod hintops;
 pub mod histmodels;
 pub mod ift;
 pub mod images;
